@@ -575,8 +575,8 @@ func (t *ArcTable) Project(p Pt, sLo, sHi float64) (s, dist float64) {
 }
 
 // Nearest returns the parameter in [t0,t1] of the point of the segment nearest to q and its
-// distance. Lines are solved in closed form; curves by 64 samples followed by golden-section
-// refinement of the three best local minima (accuracy about 1e-12 of the segment size).
+// distance. Lines are solved in closed form; curves by 128 samples followed by golden-section
+// refinement of the four best local minima (accuracy about 1e-12 of the segment size).
 func (s *Seg) Nearest(q Pt, t0, t1 float64) (float64, float64) {
 	if t1 < t0 {
 		t0, t1 = t1, t0
@@ -591,7 +591,7 @@ func (s *Seg) Nearest(q Pt, t0, t1 float64) (float64, float64) {
 		t = math.Max(t0, math.Min(t1, t))
 		return t, q.Dist(s.At(t))
 	}
-	const N = 64
+	const N = 128
 	var d [N + 1]float64
 	for i := 0; i <= N; i++ {
 		d[i] = q.Dist(s.At(t0 + (t1-t0)*float64(i)/N))
@@ -614,8 +614,8 @@ func (s *Seg) Nearest(q Pt, t0, t1 float64) (float64, float64) {
 			}
 		}
 	}
-	if len(cs) > 3 {
-		cs = cs[:3]
+	if len(cs) > 4 {
+		cs = cs[:4]
 	}
 	bestT, bestD := t0, math.Inf(1)
 	const phi = 0.6180339887498949
